@@ -320,7 +320,7 @@ func reportDB(c *Ctx, harness string, dc dbCase, tape *simrt.Tape, seed int64, v
 	if c.Thorough() {
 		budget = 60 * time.Second
 	}
-	if known || c.seenSig[c.Property+"|"+v.sig] > 0 || c.minimised >= 2 || c.seenClass[sigClass(v.sig)] > 0 {
+	if simrt.RaceBuild || known || c.seenSig[c.Property+"|"+v.sig] > 0 || c.minimised >= 2 || c.seenClass[sigClass(v.sig)] > 0 {
 		budget = 0
 	} else {
 		c.minimised++
@@ -362,6 +362,9 @@ func reportDB(c *Ctx, harness string, dc dbCase, tape *simrt.Tape, seed int64, v
 		c.Count("violations-not-listed-beyond-40", 1)
 		return
 	}
+	if simrt.RaceBuild {
+		cur.tape = nil // not recorded: the replay re-derives the schedule from the run seed
+	}
 	c.Report(Violation{Sig: v.sig, Detail: detail}, &ReplayFile{RunSeed: seed, Case: mustJSON(cur.c), Tape: cur.tape, Minimised: budget > 0})
 }
 
@@ -371,7 +374,7 @@ func dbsimReplay(c *Ctx, rf *ReplayFile) []Violation {
 		panic(err)
 	}
 	var out []Violation
-	for _, v := range runDBCase(c, dc, simrt.ReplayTape(rf.Tape), rf.Mode).vs {
+	for _, v := range runDBCase(c, dc, tapeFor(rf), rf.Mode).vs {
 		out = append(out, Violation{Property: rf.Property, Sig: v.sig, Detail: v.detail})
 	}
 	return out
